@@ -376,6 +376,10 @@ func (conn *Conn) read(ctx *Context, async bool) {
 					return
 				}
 			} else if u.Stream == openStream {
+				// Switch the call to streaming here, in the reader, so that a
+				// message the server pushes right behind the acknowledgement
+				// is not mistaken for a second acknowledgement and dropped.
+				u.Stream = streaming
 				call.done()
 			}
 			conn.bufferPool.PutBuffer(ctx.buffer)
